@@ -106,7 +106,7 @@ func SrcSugar(v *V) string {
 		if sv, ok := v.AsSeq(); ok {
 			switch sv.Attr {
 			case "@char":
-				if s, ok := sv.plainString(); ok {
+				if s, ok := sv.PlainString(); ok {
 					return offPrefix(sv.Off) + SrcQuote(s)
 				}
 			case "@item":
@@ -118,7 +118,7 @@ func SrcSugar(v *V) string {
 				}
 				return offPrefix(sv.Off) + "[" + strings.Join(parts, ", ") + "]"
 			case "@byte":
-				if bs, ok := sv.plainBytes(); ok {
+				if bs, ok := sv.PlainBytes(); ok {
 					parts := make([]string, len(bs))
 					for i, b := range bs {
 						parts[i] = fmt.Sprint(b)
@@ -143,7 +143,7 @@ func SrcSugar(v *V) string {
 	panic("SrcSugar: opaque value")
 }
 
-func (sv *SeqView) plainString() (string, bool) {
+func (sv *SeqView) PlainString() (string, bool) {
 	if sv.Holes > 0 {
 		return "", false
 	}
@@ -158,7 +158,7 @@ func (sv *SeqView) plainString() (string, bool) {
 	return string(rs), true
 }
 
-func (sv *SeqView) plainBytes() ([]byte, bool) {
+func (sv *SeqView) PlainBytes() ([]byte, bool) {
 	if sv.Holes > 0 {
 		return nil, false
 	}
